@@ -61,7 +61,8 @@ MASS_FRAME_FIELDS = {'body_ipos', 'body_iquat', 'body_sameframe', 'body_simple',
 # is cond(M) * eps * k, not 200 eps.  The saved text reproduces positions/orientations only up to re-normalisation of
 # quaternions (a few eps), which these fields amplify.  COND_RTOL = 1e-8 ~ cond(M) <= 1e6 x 2e-16 x 50; worst observed on
 # the unchanged tree is recorded in the evidence (worst_conditioned_error).
-COND_FIELDS = {'body_invweight0', 'dof_invweight0', 'tendon_invweight0', 'actuator_acc0', 'stat.meaninertia'}
+COND_FIELDS = {'body_invweight0', 'dof_invweight0', 'tendon_invweight0', 'actuator_acc0', 'stat.meaninertia',
+               'body_iquat'}     # body_iquat: eigenvectors of the inertia tensor, conditioned by the eigenvalue gaps
 COND_RTOL = 1e-8
 _worst_cond = [0.0]
 
@@ -74,7 +75,8 @@ def compare17(lib, m1, m2, **kw):
       a = np.atleast_1d(np.asarray(modelcmp._member(m1, d.field), dtype=float))
       b = np.atleast_1d(np.asarray(modelcmp._member(m2, d.field), dtype=float))
       with np.errstate(all='ignore'):
-        rel = np.abs(a - b) / np.maximum(np.maximum(np.abs(a), np.abs(b)), 1e-300)
+        scale = 1.0 if d.field == 'body_iquat' else 0.0     # unit quaternions: error relative to the norm
+        rel = np.abs(a - b) / np.maximum(np.maximum(np.maximum(np.abs(a), np.abs(b)), scale), 1e-300)
       rel = np.where(np.isfinite(rel), rel, 0.0)
       w = float(rel.max()) if rel.size else 0.0
       if w <= COND_RTOL:
